@@ -11,15 +11,20 @@ Shapes == CASE ShapeSet = "small" -> {<<1>>, <<2>>, <<1, 1>>, <<1, 2>>, <<2, 1>>
             [] ShapeSet = "medium" -> {<<1>>, <<2>>, <<3>>, <<1, 1>>, <<1, 2>>, <<2, 1>>, <<2, 2>>, <<1, 1, 1>>, <<1, 1, 2>>, <<2, 1, 1>>, <<1, 2, 1>>}
             [] ShapeSet = "four" -> {<<1, 1, 1, 1>>, <<1, 1, 1, 2>>, <<2, 1, 1, 1>>, <<1, 2, 1, 1>>}
             [] ShapeSet = "five" -> {<<1, 1, 1, 1, 1>>}
+            \* 6 - 8 partitions: too wide for exhaustive search, explored by simulation (MC_MPU_wide.cfg)
+            [] ShapeSet = "wide" -> {<<1, 1, 1, 1, 1, 1>>, <<1, 2, 1, 1, 2, 1>>, <<1, 1, 1, 1, 1, 1, 1, 1>>, <<2, 1, 1, 3, 1, 1, 1>>}
+\* chunk sizes of a wide shape follow a repeating pattern (the full function space would be 3^10 initial states per shape)
+Patterns == {<<1, 3, 7>>, <<7, 1>>, <<3>>, <<1, 1, 10>>, <<0, 3, 1, 7>>, <<10, 0>>}
+SizeFns(n) == IF ShapeSet = "wide" THEN {[i \in 1..n |-> q[((i + o) % Len(q)) + 1]] : q \in Patterns, o \in 0..2} ELSE [1..n -> Sizes]
 
 Init ==
   \E shape \in Shapes, spill \in Spills, wpc \in WPCs, h \in Hdrs, f \in Ftrs, mp \in MinParts :
-  \E sizes \in [1..SumSeq(shape) -> Sizes] :
+  \E sizes \in SizeFns(SumSeq(shape)) :
     /\ cfg = [shape |-> shape, sizes |-> sizes, spill |-> spill, wpc |-> wpc, h |-> h, f |-> f,
               minPart |-> mp, maxPart |-> mp + Len(shape) * wpc, m |-> M]
     /\ st = InitSt /\ todo = 1 /\ phase = "append" /\ hist = <<>>
 
-Next == /\ \/ DoAppend \/ (\E i \in 1..4 : DoMerge(i)) \/ DoFinalise
+Next == /\ \/ DoAppend \/ (\E i \in 1..8 : DoMerge(i)) \/ DoFinalise
         /\ (phase' = "done" \/ st'.fail # OK) => Emit([cfg |-> cfg, hist |-> hist'])
 Spec == Init /\ [][Next]_vars
 View == <<cfg, st, todo, phase>>
